@@ -91,33 +91,33 @@ Proof.
 Qed.
 
 (** the table: every canonical spelling is ASCII and is found again under its own lower-case key.
-    A finite check on the table regenerated from /repo (tie T-A). *)
-Definition table_ok : bool :=
+    A finite check (vm_compute) on the table regenerated from /repo (tie T-A). *)
+Definition table_ok (tbl : list fielddef) : bool :=
   forallb (fun d => all_ascii (fd_name d) &&
-                    match lookup_def (ascii_lower (fd_name d)) with
+                    match lookup_def tbl (ascii_lower (fd_name d)) with
                     | Some d' => bytes_eqb (fd_name d') (fd_name d)
                     | None => false
-                    end) field_table.
-Lemma table_ok_true : table_ok = true.
-Proof. vm_compute. reflexivity. Qed.
+                    end) tbl.
 
-Lemma lookup_in lc d : lookup_def lc = Some d -> In d field_table.
+Lemma lookup_in tbl lc d : lookup_def tbl lc = Some d -> In d tbl.
 Proof. unfold lookup_def. intros H. apply find_some in H as [H _]. apply in_rev. exact H. Qed.
 
 Section Normalize.
+Variable tbl : list fielddef.
+Hypothesis Htbl : table_ok tbl = true.
 Variable uni_lower : bytes -> bytes.
-Notation normalize_name := (normalize_name uni_lower).
+Notation normalize_name := (normalize_name tbl uni_lower).
 Notation lower := (lower uni_lower).
 
 Theorem normalize_idem n : normalize_name (normalize_name n) = normalize_name n.
 Proof.
   unfold Fields.normalize_name, normalize_def.
-  destruct (lookup_def (lower n)) as [d|] eqn:E; cbn [fst].
-  - pose proof (lookup_in _ _ E) as Hin.
-    pose proof table_ok_true as T. unfold table_ok in T. rewrite forallb_forall in T.
+  destruct (lookup_def tbl (lower n)) as [d|] eqn:E; cbn [fst].
+  - pose proof (lookup_in _ _ _ E) as Hin.
+    pose proof Htbl as T. unfold table_ok in T. rewrite forallb_forall in T.
     specialize (T d Hin). apply andb_true_iff in T as [T1 T2].
     unfold Fields.lower. rewrite T1.
-    destruct (lookup_def (ascii_lower (fd_name d))) as [d'|]; [|discriminate].
+    destruct (lookup_def tbl (ascii_lower (fd_name d))) as [d'|]; [|discriminate].
     cbn [fst]. apply bytes_eqb_eq. exact T2.
   - unfold canonical_mime. destruct (forallb is_tchar n) eqn:T.
     + assert (HL : lower (canon_loop true n) = lower n).
@@ -129,12 +129,12 @@ Qed.
 
 Theorem normalize_case_insensitive a b :
   all_ascii a = true -> all_ascii b = true -> ascii_lower a = ascii_lower b ->
-  (forallb is_tchar a = true \/ lookup_def (ascii_lower a) <> None) ->
+  (forallb is_tchar a = true \/ lookup_def tbl (ascii_lower a) <> None) ->
   normalize_name a = normalize_name b.
 Proof.
   intros Ha Hb Hl Hk. unfold Fields.normalize_name, normalize_def, Fields.lower.
   rewrite Ha, Hb, <- Hl.
-  destruct (lookup_def (ascii_lower a)) as [d|] eqn:E; cbn [fst]; [reflexivity|].
+  destruct (lookup_def tbl (ascii_lower a)) as [d|] eqn:E; cbn [fst]; [reflexivity|].
   destruct Hk as [Hk|Hk]; [|congruence].
   unfold canonical_mime. rewrite <- (tchars_same_lower a b Hl), Hk.
   apply canon_same_lower. exact Hl.
@@ -142,8 +142,12 @@ Qed.
 
 End Normalize.
 
+(* the table read from /repo on this run satisfies the check *)
+Lemma gen_table_ok : table_ok field_table = true.
+Proof. vm_compute. reflexivity. Qed.
+
 (* names outside the token alphabet are returned unchanged by Go's canonicaliser, so
    they are NOT case-insensitive keys: "a b" and "A B" are different fields. *)
 Example non_token_names_are_case_sensitive :
-  normalize_name (fun s => s) [97; 32; 98] <> normalize_name (fun s => s) [65; 32; 66].
+  normalize_name field_table (fun s => s) [97; 32; 98] <> normalize_name field_table (fun s => s) [65; 32; 66].
 Proof. vm_compute. discriminate. Qed.
